@@ -70,6 +70,9 @@ type Case struct {
 	Tx   string   `json:"tx"` // hex of the full (signed) encoding
 	Ts   uint64   `json:"ts"`
 	Fork bool     `json:"fork"`
+	// real-store mode: the history replayed into a temp-dir storage.BadgerStore; View is
+	// then ignored and recomputed from these bodies
+	Badger *BadgerSpec `json:"badger,omitempty"`
 }
 
 // ---- the fake store ----------------------------------------------------------------
@@ -289,6 +292,21 @@ func (s *Store) ReadAssetWithBalance(id crypto.Hash) (*common.Asset, common.Inte
 }
 
 var _ common.DataStore = (*Store)(nil)
+
+// markRead makes the projection carry every entry of the true view the transaction
+// names (used when the code under test read another store)
+func (s *Store) markRead(ver *common.VersionedTransaction) {
+	for _, in := range ver.Inputs {
+		s.readUtxo[slotKey(in.Hash, in.Index)] = true
+	}
+	for _, h := range ver.References {
+		if !s.readTx[h] {
+			s.readTx[h] = true
+			s.readTxOrder = append(s.readTxOrder, h)
+		}
+	}
+	s.Reads++
+}
 
 // ---- the ledger invariants a reachable store satisfies (C05 quantifier) ----------------
 
